@@ -331,6 +331,9 @@ class ParseContext:
         fn_or_cls,
         name=name,
         module=module,
+        # A re-registration keeps the lists the object was registered with.
+        allowlist=original.allowlist if original is not None else None,
+        denylist=original.denylist if original is not None else None,
         import_source=import_source,
         avoid_class_mutation=True)
     if original is not None:  # We've re-registered something...
